@@ -172,7 +172,7 @@ class C03(Prop):
             "length 0..1100 and 65530..65545 x 4 fixed keys x text/binary. Non-trivial = payload in a 16/64-bit length class or "
             "exactly at 125/126/65535/65536, or an invalid call.")
     assumptions = ("harness/wire.py strict decoder (self-tested)", "json.loads as the inverse of the JSON encoding")
-    examples = {"quick": 3000, "thorough": 60000}
+    examples = {"quick": 3000, "thorough": 150000}
 
     def strategy(self, tier):
         bytes_arg = gen.binary_spec(big=True, cap=70000)
